@@ -127,6 +127,30 @@ def decision_table(ctx):
     res.floor('R-TABLE.shortcut operations', sum(len(v) for v in ops.values()), 5)
 
 
+def _caps_only_on_nonempty_parts(g, node) -> bool:
+    """every cap_first / convert_to_xml_class_name call evaluated at this CFG node is `cap_first(p)` in a comprehension `for p in X if p` (a filter on
+    the bare loop variable) where X is, after expansion of locals, a `<expr>.split(<sep>)` call: its items are non-empty strings, s[0] cannot fail"""
+    comps = [c for e in node.exprs() for c in ast.walk(e) if isinstance(c, (ast.ListComp, ast.GeneratorExp, ast.SetComp))]
+    covered = set()
+    for comp in comps:
+        if len(comp.generators) != 1 or not isinstance(comp.generators[0].target, ast.Name):
+            continue
+        gen = comp.generators[0]
+        v = gen.target.id
+        if not any(isinstance(c, ast.Name) and c.id == v for c in gen.ifs):
+            continue
+        it = dom.expand(g, gen.iter, node)
+        if not (isinstance(it, ast.Call) and isinstance(it.func, ast.Attribute) and it.func.attr == 'split' and len(it.args) == 1 and
+                isinstance(it.args[0], ast.Constant) and isinstance(it.args[0].value, str) and it.args[0].value):
+            continue
+        for c in ast.walk(comp.elt):
+            if isinstance(c, ast.Call) and isinstance(c.func, ast.Name) and c.func.id == 'cap_first' and len(c.args) == 1 and not c.keywords and \
+                    isinstance(c.args[0], ast.Name) and c.args[0].id == v:
+                covered.add(id(c))
+    calls = [c for e in node.exprs() for c in ast.walk(e) if isinstance(c, ast.Call) and isinstance(c.func, ast.Name) and c.func.id in ('cap_first', 'convert_to_xml_class_name')]
+    return bool(calls) and all(id(c) in covered for c in calls)
+
+
 def membership_gate(ctx):
     """The class lookup of the child shortcut only ever sees names of the element's own possible children (also the reason no
     NameError / IndexError can come out of the name arithmetic: C19)."""
@@ -140,7 +164,8 @@ def membership_gate(ctx):
     ok = bool(evals) and bool(gates) and all(g.path_avoiding(g.entry, e, avoid=gates) is None for e in evals)
     # every computation on the name parts (cap_first indexes [0]) also sits behind the gate
     caps = dom.nodes_calling(g, lambda c: isinstance(c.func, ast.Name) and c.func.id in ('cap_first', 'convert_to_xml_class_name'))
-    ok = ok and all(g.path_avoiding(g.entry, c, avoid=gates) is None for c in caps)
+    # ... unless it cannot raise where it stands: `cap_first(p)` inside `[.. for p in <str>.split(..) if p]` only sees non-empty strings
+    ok = ok and all(g.path_avoiding(g.entry, c, avoid=gates) is None for c in caps if not _caps_only_on_nonempty_parts(g, c))
     res.check(ok, 'R-TAB.shortcut-names', f.fq, "the class lookup (eval) is dominated by `<hyphenated name> not in self.possible_children_names -> raise NameError`: "
               "only names of the element's own possible children are ever turned into classes", key='R-TAB.shortcut-names|membership-gate')
     for gt in gates:
